@@ -64,6 +64,7 @@ choice was made instead that the issuer is always the revocation authority.
 package revocation
 
 import (
+	"crypto/ecdsa"
 	"encoding/base64"
 	"encoding/binary"
 	"encoding/json"
@@ -96,6 +97,8 @@ type (
 		Data        signed.Message `json:"data"`
 		PKCounter   uint           `json:"pk"`
 		Accumulator *Accumulator   `json:"-"` // Accumulator contained in this instance, set by UnmarshalVerify()
+
+		verifiedBy *ecdsa.PublicKey // the key under which UnmarshalVerify() verified Accumulator
 	}
 
 	// Event contains the data clients need to update to the Accumulator of the specified index,
@@ -217,7 +220,9 @@ func (acc *Accumulator) Remove(sk *gabikeys.PrivateKey, e *big.Int, parent *Even
 // UnmarshalVerify verifies the signature and unmarshals the accumulator
 // (c.f. Accumulator.Sign()).
 func (s *SignedAccumulator) UnmarshalVerify(pk *gabikeys.PublicKey) (*Accumulator, error) {
-	if s.Accumulator != nil {
+	// The outcome of an earlier verification only holds for the key it was made with.
+	if s.Accumulator != nil && s.verifiedBy != nil && pk.ECDSA != nil &&
+		pk.Counter == s.PKCounter && s.verifiedBy.Equal(pk.ECDSA) {
 		return s.Accumulator, nil
 	}
 	msg := &Accumulator{}
@@ -227,7 +232,7 @@ func (s *SignedAccumulator) UnmarshalVerify(pk *gabikeys.PublicKey) (*Accumulato
 	if err := signed.UnmarshalVerify(pk.ECDSA, s.Data, msg); err != nil {
 		return nil, err
 	}
-	s.Accumulator = msg
+	s.Accumulator, s.verifiedBy = msg, pk.ECDSA
 	return s.Accumulator, nil
 }
 
